@@ -6,6 +6,7 @@ import (
 	"go/constant"
 	"go/token"
 	"go/types"
+	"regexp"
 	"sort"
 	"strings"
 
@@ -57,6 +58,10 @@ type wireExtractor struct {
 	msg   map[types.Object]bool // identifiers that denote the message being coded (normalised to "$")
 	items []wireItem
 	errs  []string
+	// subst renders identifiers of an expanded pair helper (its parameters) as the caller's argument text
+	subst   map[types.Object]string
+	depth   int
+	sizeObj types.Object // the accumulator of a size function (resolved from its final return, not from its name)
 }
 
 func (c *Ctx) funcDecl(short string) (*packages.Package, *ast.FuncDecl) {
@@ -138,6 +143,11 @@ func (x *wireExtractor) typeNameOf(e ast.Expr) string {
 func (x *wireExtractor) norm(e ast.Expr) string {
 	switch v := e.(type) {
 	case *ast.Ident:
+		if obj := x.pkg.TypesInfo.Uses[v]; obj != nil {
+			if t, ok := x.subst[obj]; ok {
+				return t
+			}
+		}
 		if obj := x.pkg.TypesInfo.Uses[v]; obj != nil && x.msg[obj] {
 			return "$"
 		}
@@ -279,14 +289,43 @@ func (x *wireExtractor) findPrimitives(n ast.Node, kind string) []*ast.CallExpr 
 	return out
 }
 
-func isErrNotNil(e ast.Expr) bool {
+func (x *wireExtractor) isErrNotNil(e ast.Expr) bool {
 	b, ok := ast.Unparen(e).(*ast.BinaryExpr)
 	if !ok || b.Op != token.NEQ {
 		return false
 	}
 	id, ok1 := b.X.(*ast.Ident)
 	nl, ok2 := b.Y.(*ast.Ident)
-	return ok1 && ok2 && nl.Name == "nil" && strings.HasPrefix(strings.ToLower(id.Name), "err")
+	if !ok1 || !ok2 || nl.Name != "nil" {
+		return false
+	}
+	// an identifier of type error (whatever it is called)
+	if tv, ok := x.pkg.TypesInfo.Types[id]; ok && tv.Type != nil {
+		return types.Identical(tv.Type, types.Universe.Lookup("error").Type())
+	}
+	return false
+}
+
+var cmpRe = regexp.MustCompile(`^(.*) (<=|>=|<|>|==|!=) (\S+)$`)
+
+// negGuard renders the negation of a guard conjunction; a single comparison is flipped so that
+// `else` of `v <= 4` and a sibling's `if v > 4` read the same.
+func negGuard(conj []string) string {
+	if len(conj) == 1 {
+		if m := cmpRe.FindStringSubmatch(conj[0]); m != nil && !strings.Contains(m[1], "&&") && !strings.Contains(m[1], "||") {
+			flip := map[string]string{"<=": ">", ">=": "<", "<": ">=", ">": "<=", "==": "!=", "!=": "=="}
+			return m[1] + " " + flip[m[2]] + " " + m[3]
+		}
+	}
+	return "!(" + strings.Join(conj, " && ") + ")"
+}
+
+func endsInReturn(b *ast.BlockStmt) bool {
+	if b == nil || len(b.List) == 0 {
+		return false
+	}
+	_, ok := b.List[len(b.List)-1].(*ast.ReturnStmt)
+	return ok
 }
 
 // ---------------------------------------------------------------------------
@@ -299,7 +338,7 @@ func (x *wireExtractor) walkCoder(stmts []ast.Stmt, guards []string, kind string
 			// `if err := prim(...); err != nil { return … }` and `if v, err = dec.X(); err != nil {…}`
 			if st.Init != nil && len(x.findPrimitives(st.Init, kind)) > 0 {
 				x.emitStmt(st.Init, guards, kind)
-				if !isErrNotNil(st.Cond) {
+				if !x.isErrNotNil(st.Cond) {
 					x.fail(st, "primitive call in an if-initialiser whose condition is not `err != nil`")
 				}
 				if st.Else != nil && len(x.findPrimitives(st.Else, kind)) > 0 {
@@ -315,9 +354,9 @@ func (x *wireExtractor) walkCoder(stmts []ast.Stmt, guards []string, kind string
 				continue // validation / error handling only
 			}
 			x.walkCoder(st.Body.List, withGuards(guards, x.conjuncts(st.Cond)...), kind)
+			neg := negGuard(x.conjuncts(st.Cond))
 			if st.Else != nil {
 				if len(x.findPrimitives(st.Else, kind)) > 0 {
-					neg := "!(" + strings.Join(x.conjuncts(st.Cond), " && ") + ")"
 					switch e := st.Else.(type) {
 					case *ast.BlockStmt:
 						x.walkCoder(e.List, withGuards(guards, neg), kind)
@@ -325,6 +364,9 @@ func (x *wireExtractor) walkCoder(stmts []ast.Stmt, guards []string, kind string
 						x.walkCoder([]ast.Stmt{e}, withGuards(guards, neg), kind)
 					}
 				}
+			} else if endsInReturn(st.Body) && len(x.findPrimitives(st.Body, kind)) > 0 {
+				// `if c { …items…; return }` : what follows in this block is the else branch
+				guards = withGuards(guards, neg)
 			}
 		case *ast.BlockStmt:
 			x.walkCoder(st.List, guards, kind)
@@ -357,6 +399,9 @@ func (x *wireExtractor) emitStmt(s ast.Node, guards []string, kind string) {
 		}
 		if kind == "dec" {
 			field = x.decTarget(s, call)
+		}
+		if _, isIdent := call.Fun.(*ast.Ident); isIdent && x.expandPair(call, kind, guards, field) {
+			continue
 		}
 		x.items = append(x.items, wireItem{Guards: guards, Tok: tok, Field: field, Pos: call.Pos()})
 	}
@@ -436,8 +481,69 @@ func (x *wireExtractor) extractCoder(kind string) []wireItem {
 // size sibling
 
 func (x *wireExtractor) extractSize(sizeVar string) []wireItem {
+	// the accumulator is whatever identifier the function's last statement returns
+	if n := len(x.fn.Body.List); n > 0 {
+		if r, ok := x.fn.Body.List[n-1].(*ast.ReturnStmt); ok && len(r.Results) == 1 {
+			if id, ok := ast.Unparen(r.Results[0]).(*ast.Ident); ok {
+				x.sizeObj = x.pkg.TypesInfo.Uses[id]
+			}
+		}
+	}
 	x.walkSize(x.fn.Body.List, nil, sizeVar)
 	return x.items
+}
+
+func (x *wireExtractor) isSizeVar(e ast.Expr) bool {
+	id, ok := ast.Unparen(e).(*ast.Ident)
+	if !ok || x.sizeObj == nil {
+		return false
+	}
+	return x.pkg.TypesInfo.Uses[id] == x.sizeObj || x.pkg.TypesInfo.Defs[id] == x.sizeObj
+}
+
+// expandPair splices the items of a pair helper (encodeMessageSeq / decodeMessageSeq / messageSeqSize …) in place
+// of its token, so that a sibling that calls the helper and one that has it inlined yield the same list.
+func (x *wireExtractor) expandPair(call *ast.CallExpr, kind string, guards []string, field string) bool {
+	id, ok := call.Fun.(*ast.Ident)
+	if !ok || x.depth > 2 {
+		return false
+	}
+	fobj, ok := x.pkg.TypesInfo.Uses[id].(*types.Func)
+	if !ok || fobj.Pkg() == nil {
+		return false
+	}
+	pk, fd := x.c.funcDecl(shortPkg(fobj.Pkg().Path()) + "." + fobj.Name())
+	if fd == nil || fd.Body == nil || fd.Type.Params == nil {
+		return false
+	}
+	sub := &wireExtractor{c: x.c, pkg: pk, codec: x.codec, fn: fd, msg: map[types.Object]bool{}, subst: map[types.Object]string{}, depth: x.depth + 1}
+	i := 0
+	for _, f := range fd.Type.Params.List {
+		for _, n := range f.Names {
+			if i < len(call.Args) {
+				if o := pk.TypesInfo.Defs[n]; o != nil {
+					sub.subst[o] = x.norm(call.Args[i])
+				}
+			}
+			i++
+		}
+	}
+	if kind == "size" {
+		sub.extractSize("")
+	} else {
+		sub.walkCoder(fd.Body.List, nil, kind)
+	}
+	if len(sub.errs) > 0 || len(sub.items) == 0 {
+		return false
+	}
+	for _, it := range sub.items {
+		f := it.Field
+		if f == "" {
+			f = field
+		}
+		x.items = append(x.items, wireItem{Guards: withGuards(guards, it.Guards...), Tok: it.Tok, Field: f, Pos: call.Pos()})
+	}
+	return true
 }
 
 func (x *wireExtractor) walkSize(stmts []ast.Stmt, guards []string, sizeVar string) {
@@ -445,7 +551,7 @@ func (x *wireExtractor) walkSize(stmts []ast.Stmt, guards []string, sizeVar stri
 		switch st := s.(type) {
 		case *ast.AssignStmt:
 			if len(st.Lhs) == 1 && len(st.Rhs) == 1 {
-				if id, ok := st.Lhs[0].(*ast.Ident); ok && id.Name == sizeVar {
+				if x.isSizeVar(st.Lhs[0]) {
 					switch st.Tok {
 					case token.ADD_ASSIGN, token.DEFINE, token.ASSIGN:
 						x.sizeTerms(st.Rhs[0], guards, sizeVar)
@@ -457,19 +563,28 @@ func (x *wireExtractor) walkSize(stmts []ast.Stmt, guards []string, sizeVar stri
 		case *ast.DeclStmt:
 			if gd, ok := st.Decl.(*ast.GenDecl); ok {
 				for _, sp := range gd.Specs {
-					if vs, ok := sp.(*ast.ValueSpec); ok && len(vs.Names) == 1 && vs.Names[0].Name == sizeVar && len(vs.Values) == 1 {
+					if vs, ok := sp.(*ast.ValueSpec); ok && len(vs.Names) == 1 && x.isSizeVar(vs.Names[0]) && len(vs.Values) == 1 {
 						x.sizeTerms(vs.Values[0], guards, sizeVar)
 					}
 				}
 			}
 		case *ast.IfStmt:
+			before := len(x.items)
 			x.walkSize(st.Body.List, withGuards(guards, x.conjuncts(st.Cond)...), sizeVar)
-			if st.Else != nil {
-				x.fail(st.Else, "else branch in a size function")
+			neg := negGuard(x.conjuncts(st.Cond))
+			switch e := st.Else.(type) {
+			case *ast.BlockStmt:
+				x.walkSize(e.List, withGuards(guards, neg), sizeVar)
+			case *ast.IfStmt:
+				x.walkSize([]ast.Stmt{e}, withGuards(guards, neg), sizeVar)
+			case nil:
+				if endsInReturn(st.Body) && len(x.items) > before {
+					guards = withGuards(guards, neg)
+				}
 			}
 		case *ast.ReturnStmt:
 			if len(st.Results) == 1 {
-				if id, ok := st.Results[0].(*ast.Ident); !ok || id.Name != sizeVar {
+				if !x.isSizeVar(st.Results[0]) {
 					x.sizeTerms(st.Results[0], guards, sizeVar)
 				}
 			}
@@ -509,7 +624,7 @@ func (x *wireExtractor) sizeTerms(e ast.Expr, guards []string, sizeVar string) {
 }
 
 func (x *wireExtractor) sizeTerm(e ast.Expr, guards []string, sizeVar string) {
-	if id, ok := e.(*ast.Ident); ok && id.Name == sizeVar {
+	if x.isSizeVar(e) {
 		return
 	}
 	if f, ok := x.lenOfField(e); ok {
@@ -518,6 +633,9 @@ func (x *wireExtractor) sizeTerm(e ast.Expr, guards []string, sizeVar string) {
 	}
 	if call, ok := e.(*ast.CallExpr); ok {
 		if id, ok := call.Fun.(*ast.Ident); ok {
+			if _, ok := x.codec.SizePair[id.Name]; ok && x.expandPair(call, "size", guards, "") {
+				return
+			}
 			if t, ok := x.codec.SizePair[id.Name]; ok {
 				x.items = append(x.items, wireItem{Guards: guards, Tok: t, Pos: e.Pos()})
 				return
